@@ -95,14 +95,11 @@ def roundtrip(run, sc, idx, g, files, known=None):
 def full_models(g):
     for m in g["models"].values():
         m["version"] = m["version"] or "1.0.0"
-        for r in m["required"]:
-            r["version"] = r["version"] or "1.04"
-            r["publication_date"] = r["publication_date"] or "2019-05-01T00:00:00Z"
 
 
 def witnesses(run, sc):
     rng = run.rng
-    # D-C05c: missing Version / PublicationDate are replaced by defaults
+    # D-C05c: a Model without Version gets the default version
     g, files = W.gen_closed(rng, hostile=False, n_ns=1, n_nodes=2)
     for m in g["models"].values():
         m["version"] = None
